@@ -8,5 +8,5 @@ rsync -a --exclude target --exclude .git /repo/ "$D/r/"
 (cd "$D/r" && git init -q . && git apply --whitespace=nowarn "$P")
 for c in "$@"; do
   echo "=== $c on $(basename $(dirname $P))/$(basename $P)"
-  VERIF_EVIDENCE_DIR="${MUT_EVIDENCE:-/var/tmp/w0/mut_evidence}" VERIF_REPO="$D/r" timeout ${MUT_TIMEOUT:-1500} /verif/check "$c" 2>&1 | grep -v '^  what' | tail -${TAILN:-4} | cut -c1-400
+  VERIF_EVIDENCE_DIR="${MUT_EVIDENCE:-/var/tmp/w0/mut_evidence}" VERIF_REPO="$D/r" timeout ${MUT_TIMEOUT:-1500} /verif/check "$c" --tier ${MUT_TIER:-quick} 2>&1 | grep -v '^  what' | tail -${TAILN:-4} | cut -c1-400
 done
